@@ -123,6 +123,8 @@ func (sc *Scenario) Build(log *Log, gate *vrt.Gate) (*el.Broker, map[string]*Nod
 	return b, objs
 }
 
+var errCallerCause = errors.New("caller's cancellation cause")
+
 // Run executes the scenario's Send as the calling controlled thread.
 func (sc *Scenario) Run() *Obs {
 	log := &Log{}
@@ -138,7 +140,10 @@ func (sc *Scenario) Run() *Obs {
 			vrt.Fail("SetSuccessThresholdSinks(%d): %v", sc.ThrSinks, err)
 		}
 	}
-	ctx, cancel := context.WithCancel(context.Background())
+	// a cancel *cause* distinct from ctx.Err(): Send's error must wrap the context's error
+	// (context.Canceled), whatever cause the caller attached
+	ctx, cancelCause := context.WithCancelCause(context.Background())
+	cancel := func() { cancelCause(errCallerCause) }
 	defer cancel()
 	o := &Obs{Log: log, Nodes: objs}
 	payload := &struct{ X int }{42}
